@@ -208,6 +208,8 @@ def gen(rng, tier):
     add("hist/self", "hist S:l:-:5 E PSELF T E X S:l:-:5 T E")
     add("hist/self", "hist S:l,s:-:2 PS:c1 T PSELF T E S:l,s:-:2 T E")
     add("hist/novalue", "hist S:l9:-:5 T X S:l9:0.z.4:5 T X S:l9:-:5 T E S:l9,s9:1.z.2:2 T X S:l9,s9:0.z.1:2 T E")
+    add("hist/lowercase-id", "hist S:l:-:5 PS:c1 T E X LC S:l:-:5 T E RM:c1:c1 T X S:l:-:5 T E")
+    add("hist/lowercase-id", "hist S:b,s:-:2 X LC S:b,s:-:2 PS:c1 T X S:b,s1:-:2 T E")
     add("hist/badpin", "hist S:l:-:5 X pin=11111111 S:l:-:5 T pin=00102003 S:l1:-:5 T E")
     return cases
 
@@ -301,6 +303,9 @@ def oracle_hist(c, obs):
             pin = op[4:]
         elif op.startswith("sid="):
             sid = bytes.fromhex(op[4:]).decode()
+        elif p[0] == "LC":
+            if ident is not None and not running:
+                ident = ("renamed", ident[1])
         elif p[0] == "S":
             o = nxt("S")
             if o is None:
@@ -315,6 +320,11 @@ def oracle_hist(c, obs):
                 return "start failed: " + o[:80]
             running = True
             if ident is None:
+                ident = (m.group(1), m.group(2))
+            elif ident[0] == "renamed":
+                # the stored identity was renamed while stopped: the name is the new one, the key pair is the stored one
+                if m.group(2) != ident[1]:
+                    return "the stored identity was given another name (uuid file and own entity, key pair kept) but the accessory came up with another key pair (first seen at start %s, now %s)" % (ident[1], m.group(2))
                 ident = (m.group(1), m.group(2))
             elif ident != (m.group(1), m.group(2)):
                 return "the device id / key pair changed across a restart on the same storage (first seen at start %s/%s, now %s/%s)" % (ident + (m.group(1), m.group(2)))
